@@ -157,6 +157,38 @@ def lexer_job(job):
     return out
 
 
+LAYOUT_RULES = ("STR", "COMMENT", "TAB", "SPACE", "NEWLINE", "ANY")
+
+
+def noblank_job(job):
+    """O7: no token other than a string, a comment or layout itself contains a blank - so blanks can only *separate* tokens, and
+    one blank does what two or three do (O1 inserts blanks only where none is adjacent)"""
+    _, M, rule = job
+    t0 = time.time()
+    lg = langmod.Lang()
+    cs = _chars(M)
+    sol = z3.Solver()
+    sol.set("timeout", 120000)
+    for c in cs:
+        sol.add(z3.ULE(c, nfa.MAXCP))
+    m = [mm for (nm, t, mm) in lg.lexer_A() if nm == rule][0]
+    acc = nfa.unroll(m, cs, off=0)
+    if str(sol.check(z3.Or([acc[k] for k in range(1, M + 1)]))) != "sat":
+        return {"job": job, "result": "vacuous", "dt": time.time() - t0}
+    sol.add(z3.Or([z3.And(acc[k], z3.Or([blank(cs[j]) for j in range(k)])) for k in range(1, M + 1)]))
+    r = sol.check()
+    out = {"job": job, "result": str(r), "dt": time.time() - t0}
+    if str(r) == "sat":
+        mdl = sol.model()
+        for k in range(M, 0, -1):
+            if z3.is_true(mdl.eval(acc[k], model_completion=True)):
+                w = "".join(chr(mdl.eval(c, model_completion=True).as_long()) for c in cs[:k])
+                if " " in w or "\t" in w:
+                    out["witness"] = (w, w)
+                    break
+    return out
+
+
 def newline_job(job):
     """O3: LF -> CR position-wise (kind 'cr'), LF -> CRLF at concrete newline positions (kind 'crlf'), tab vs 4 spaces ('tab')"""
     kind, L, pos = job
@@ -534,6 +566,9 @@ def main():
         for p in range(0, L + 1):
             for k in (0, 1, 3):
                 jobs.append(("lex", ("O2", L, p, k)))
+    for (nm, t, _) in lg.lexer_A():
+        if t is not None and nm not in LAYOUT_RULES:
+            jobs.append(("noblank", ("O7", M + 3, nm)))
     for L in range(1, M + 1):
         jobs.append(("nl", ("cr", L, ())))
         for q1 in range(L):
@@ -585,6 +620,20 @@ def main():
                 else:
                     rep.unconfirmed.append({"where": name, "tokens": names})
                     rep.obligation(name, "inconclusive", why="solver witness does not reproduce on the real parser")
+            elif kind == "noblank":
+                w1 = (res.get("witness") or ("", ""))[0]
+                toks = lg.real_tokens(w1)
+                bad = [(nm, tx) for (nm, tx) in toks if nm not in LAYOUT_RULES and (" " in tx or "\t" in tx)]
+                if bad:
+                    rep.obligation(name, "violated", witness=[w1, bad])
+                    rep.violation("O7:%s" % job[2], "the real lexer emits a %s token that contains a blank: %r in %r - blanks do not only separate tokens, "
+                                  "so one blank and two blanks between the same tokens are lexed differently" % (bad[0][0], bad[0][1], w1),
+                                  "import sys\nsys.path.insert(0, %r)\nfrom bbverif.atnsmt import lang\nt = lang.Lang().real_tokens(%r)\nprint(t)\n"
+                                  "sys.exit(1 if any(n not in %r and (' ' in x or '\\t' in x) for n, x in t) else 0)\n" % (common.ROOT, w1, LAYOUT_RULES),
+                                  "o7_%s" % job[2])
+                else:
+                    rep.unconfirmed.append({"where": name, "string": w1})
+                    rep.obligation(name, "inconclusive", why="solver witness does not reproduce on the real lexer")
             else:
                 s, s2 = res["witness"]
                 differs, a, bb_ = replay_lex(lg, s, s2)
@@ -644,6 +693,8 @@ def _dispatch(j):
             return lexer_job(job)
         if kind == "nl":
             return newline_job(job)
+        if kind == "noblank":
+            return noblank_job(job)
         return parser_job(job)
     except BaseException as e:  # noqa
         import traceback
